@@ -106,6 +106,16 @@ func buildCmpGrid() {
 	num("1_0e+1", "100")
 	num("1_000e-3", "1")
 	num("2_5E-1", "2.5")
+	// far outside the decimal128 exponent range, both signs, also as results of negation and arithmetic
+	for _, l := range []string{"1e7000", "1e6999", "10e6999", "1e6145", "9e6144", "1e-7000", "1e-6999", "1e-6177", "1e123456789", "1e-123456789", "25e123456788"} {
+		num(l, l)
+		num("(-"+l+")", "-"+l)
+	}
+	num("(1e7000 * 1)", "1e7000")
+	num("(0 - 1e7000)", "-1e7000")
+	num("(1e3500 * 1e3500)", "1e7000")
+	num("(1e-3500 * 1e-3500)", "1e-7000")
+	num("(1e7000 / 10)", "1e6999")
 	num("1", "1")
 	num("10", "10")
 	num("9", "9")
